@@ -27,6 +27,25 @@ def batch(rng, tier):
               "stel a = [1.5, \"x\"]; functie g() { a } g(); a[1]", "stel s = \"abc\"; s[0] = s; s", "print(0.1 + 0.2); 1.0 / 3.0",
               "stel i = 0; stel t = 0.0; zolang i < 1000 { i += 1; t = t + 0.1; }; t", "functie f(n) { als n < 1 { antwoord 0 }; n + f(n - 1) } f(300)",
               "4611686018427387904 / 4", "1152921504606846975 + 1152921504606846975", "(0 - 1152921504606846975) * 1152921504606846975"]
+    # nothing survives from one evaluation to the next: a name defined by one program of the batch (variable, function,
+    # function-valued variable, inside a block or a function) must be undefined in every other one, whatever ran before
+    for i in range(8):
+        progs += ["stel lek_%d = %d; lek_%d" % (i, i + 1, i), "lek_%d" % i, "als nee { lek_%d }; 5" % i, "functie lekf_%d() { %d }; lekf_%d()" % (i, i, i),
+                  "lekf_%d()" % i, "stel lekv_%d = functie(a) { a + %d }; lekv_%d(1)" % (i, i, i), "lekv_%d(2)" % i,
+                  "functie gebruikt_%d() { lek_%d }; 1" % (i, i), "stel lek_%d = \"tekst\"; [lek_%d]" % (i, i)]
+    # arithmetic that is unsigned or narrowed in the implementation (argument counts, slots, indices, lengths): the dev profile
+    # has overflow checks, the release profile wraps - the outcome must not depend on it
+    for np_ in range(0, 4):
+        ps = ", ".join("p%d" % j for j in range(np_))
+        for extra_locals in (0, 2):
+            body = " ".join("stel l%d = %d;" % (j, j) for j in range(extra_locals)) + " %s" % ("p0" if np_ else "7")
+            for na in range(0, np_ + extra_locals + 4):
+                progs.append("functie f(%s) { %s }; f(%s)" % (ps, body, ", ".join(str(j) for j in range(na))))
+    for ln in range(0, 4):
+        arr = "[%s]" % ", ".join(str(j) for j in range(ln))
+        st = "\"%s\"" % "abc"[:ln]
+        for ix in (-9, -ln - 1, -ln, -1, 0, ln - 1, ln, ln + 1, 9, 4611686018427387903, -4611686018427387904):
+            progs += ["%s[%d]" % (arr, ix), "%s[%d]" % (st, ix), "stel a = %s; a[%d] = 1; a" % (arr, ix), "stel s = %s; s[%d] = \"z\"; s" % (st, ix)]
     return progs
 
 
